@@ -539,6 +539,27 @@ def run_consumers():
             outs = [lift(t) for t in asobj(out).ravel()]
             solve.fact('consumers:%s.%s:returns-the-%s-component-of-each-evaluation' % (cls.__name__, name, 'imag' if comp == 'w' else 'imag12'),
                        ok and all(o.t.eq(z3.Real('%s%d' % (comp, k + 1))) for k, o in enumerate(outs)))
+        # the full Hessian: entry (i, j) is imag12 of f(x + i h_i e_i + j h_j e_j) divided by h_i*h_j (steps differ per coordinate)
+        for d in (2, 3):
+            del calls[:]
+            xv = SymArr([real('x%d' % c) for c in range(d)]); hv = SymArr([real('h%d' % c) for c in range(d)])
+            pre = [t.t > 0 for t in hv]
+            out = fd.HessianDifferenceFunctions._multicomplex2(rec, None, xv, hv)
+            pairs = [(i, j) for i in range(d) for j in range(i, d)]
+            tagh = 'consumers:HessianDifferenceFunctions._multicomplex2,d=%d:' % d
+            solve.fact(tagh + 'one-evaluation-per-pair-i<=j', len(calls) == len(pairs) and np.shape(out) == (d, d), note='%d calls' % len(calls))
+            if len(calls) != len(pairs) or np.shape(out) != (d, d):
+                continue
+            for k, ((i, j), z) in enumerate(zip(pairs, calls)):
+                z1 = [C.lift(lift(t)) for t in asobj(z.z1).ravel()]; z2 = [C.lift(lift(t)) for t in asobj(z.z2).ravel()]
+                solve.prove(tagh + 'call%d:argument==x+i*h%d*e%d+j*h%d*e%d' % (k, i, i, j, j),
+                            z3.And(*[z3.And(z1[c].re.t == xv[c].t, z1[c].im.t == (hv[c].t if c == i else 0), z2[c].im.t == 0,
+                                            z2[c].re.t == (hv[c].t if c == j else 0)) for c in range(d)]), pre)
+                q = z3.Real('q%d' % (k + 1))
+                for (a_, b_) in {(i, j), (j, i)}:
+                    o = lift(out[a_, b_])
+                    o = o.re if isinstance(o, C) else o
+                    solve.prove(tagh + 'entry[%d,%d]==imag12/(h%d*h%d)' % (a_, b_, i, j), o.t * hv[i].t * hv[j].t == q, pre)
     return {}
 
 
@@ -587,7 +608,15 @@ def run_branch():
     cnt, sbad = small_argument_cases(Bc)
     solve.record('branch:small-arguments:each-component-relatively-accurate-for-expm1,sin,sinh,tan,tanh(bounded:%d samples)' % cnt,
                  'proved' if not sbad else 'refuted', 'bounded-sampling', 0.0, None, 'bounded', note=str(sbad[:2])[:400])
-    return dict(bounded_samples=n + cnt)
+    from ndvc.concrete import small_domain_cases
+    cnt2, dbad = small_domain_cases(Bc)
+    solve.record('branch:tiny-in-domain-arguments:log,log2,log10,sqrt,real-powers-agree-with-the-idempotent-spec(bounded:%d samples)' % cnt2,
+                 'proved' if not dbad else 'refuted', 'bounded-sampling', 0.0, None, 'bounded', note=str(dbad[:2])[:400])
+    # the proofs of the log group replace the regulariser multicomplex._TINY by 0: admissible only while it is negligible next to every
+    # normal floating-point argument
+    tiny = float(mods()['mc']._TINY)
+    solve.fact('branch:abstraction-check:0<=_TINY<=smallest-normal-float', 0.0 <= tiny <= float(np.finfo(float).tiny), note=repr(tiny))
+    return dict(bounded_samples=n + cnt + cnt2)
 
 
 def run_containers():
@@ -662,11 +691,13 @@ def run_group(args):
 
 def replay_case(ob):
     nm = ob['name'].split('/')[-1]
-    if 'small-arguments' in nm:
+    if 'small-arguments' in nm or 'tiny-in-domain' in nm or 'abstraction-check' in nm:
         return dict(kind='C12.small')
     if ob['name'].startswith('containers/'):
         return dict(kind='C12.containers')
     if ob['name'].startswith('default-step-derivatives/'):
         return dict(kind='C12.defstep', name=ob['name'].split('/', 1)[1].rsplit(':', 1)[0])
+    if ob['name'].startswith('consumers/'):
+        return dict(kind='C12.consumers')
     fn = nm.split(':')[1] if ':' in nm else ''
     return dict(kind='C12.idempotent', group=ob['name'].split('/')[0], function=fn)
